@@ -307,6 +307,13 @@ func (tx *TransactionImpl) Rollback() error {
 	return nil
 }
 
+// lastActive returns the time of the transaction's most recent operation
+func (tx *TransactionImpl) lastActive() time.Time {
+	tx.mu.Lock()
+	defer tx.mu.Unlock()
+	return tx.lastActiveTime
+}
+
 // IsReadOnly returns true if this is a read-only transaction
 func (tx *TransactionImpl) IsReadOnly() bool {
 	return tx.mode == ReadOnly
